@@ -29,6 +29,8 @@ def run(ctx):
     r = lentil.radiometry
     rng = random.Random(1414 + ctx.seed)
     H, C, K = r.H, r.C, r.K
+    if C != 299792458:
+        ctx.violation({'kind': 'speed-of-light'}, {'module_value': C, 'exact_SI_value': 299792458, 'relative_error': abs(C - 299792458) / 299792458}, case=None)
     # ---- cases for TLC -------------------------------------------------------------------------------------------
     cases = [{'id': 0, 'k': 'units'}]
     tospec = []
@@ -178,6 +180,23 @@ def run(ctx):
                         s.to(vu0)
                     if not np.allclose(s.wave, base_w * r.Unit('nm').to(u0), rtol=1e-11, atol=0) or not np.allclose(s.value, base_v, rtol=1e-11, atol=0):
                         ctx.violation({'kind': 'to-roundtrip', 'start': [u0, vu0]}, {'path': path}, case=None)
+    # the long spellings of the wavelength units are the same units for a spectrum as they are for Unit(): to(), sample(), bin()
+    for u0 in WU:
+        for vu0 in (None, 'photlam'):
+            for al, short in (('meter', 'm'), ('micron', 'um'), ('nanometer', 'nm'), ('Micron', 'um'), ('NANOMETER', 'nm')):
+                ctx.case(('to-alias', u0, vu0, al))
+                a_ = r.Spectrum(base_w * r.Unit('nm').to(u0), base_v.copy(), waveunit=u0, valueunit=vu0)
+                b_ = r.Spectrum(base_w * r.Unit('nm').to(u0), base_v.copy(), waveunit=u0, valueunit=vu0)
+                b_.to(short)
+                try:
+                    a_.to(al)
+                    ok = a_.waveunit == b_.waveunit and np.allclose(a_.wave, b_.wave, rtol=1e-12, atol=0) and np.allclose(a_.value, b_.value, rtol=1e-12, atol=0)
+                    smp = np.allclose(b_.sample(b_.wave[1:3], waveunit=al), b_.sample(b_.wave[1:3], waveunit=short), rtol=1e-12, atol=0)
+                    err = None
+                except Exception as ex:
+                    ok, smp, err = False, False, repr(ex)[:120]
+                if not (ok and smp):
+                    ctx.violation({'kind': 'to-alias', 'alias': al.lower()}, {'start': [u0, vu0], 'error': err}, case=None)
     # ---- Planck ----------------------------------------------------------------------------------------------------------------------
     for T in (300.0, 2000.0, 5778.0, 12000.0):
         w_m = np.array([3e-7, 5e-7, 1e-6, 4e-6, 1e-5])
